@@ -261,6 +261,16 @@ def oracle_laws(case):
     # sibling permutation
     rnd = random.Random(case["perm_seed"])
     ptext = render(permuted(copy.deepcopy(case["tree"]), rnd))
+    # one compiled query searched on several annotations answers like a freshly compiled one
+    try:
+        from hed.models.query_handler import QueryHandler
+        qa = QueryHandler(A)
+        hp0 = HedString(ptext, sch)
+        seq = [bool(qa.search(hs)), bool(qa.search(hp0)), bool(qa.search(hs))]
+        if seq[0] != ra or seq[2] != ra or seq[1] != run(A, hp0):
+            out.bad("compiled-query-reused-differs", f"A={A!r}: {seq} vs fresh {ra}; {ctxs} / {ptext!r}")
+    except Exception as exc:  # noqa
+        return out.bad("search-raises:reused-handler", f"{exc!r} {A!r} {ptext!r}")
     if ptext != text:
         hp = HedString(ptext, sch)
         for name, q, r in (("A", A, ra), ("A&&B", f"({A}) && ({B})", r_and), ("A||B", f"({A}) || ({B})", r_or)):
